@@ -367,6 +367,18 @@ theorem C09_files_success_iff_order (P : Provider) (fs : List (List Ref)) (hnd :
   rw [h1]
   exact C09_success_iff_order P fs.flatten hnd n hn
 
+/-- **Any interleaving over files.** Two distributions of the same references over model files
+(other file order, other grouping, other order inside the files) resolve the same set. -/
+theorem C09_files_order_indep (P : Provider) (fs fs' : List (List Ref))
+    (hperm : fs.flatten.Perm fs'.flatten) (n : Nat) (hn : fs.flatten.length < n) (x : Ref) :
+    x ∈ (loopFiles P n fs' []).2 ↔ x ∈ (loopFiles P n fs []).2 := by
+  have h := loopFiles_eq P n fs []
+  have h' := loopFiles_eq P n fs' []
+  have h2 : (loopFiles P n fs []).2 = (loop P n fs.flatten []).2 := by rw [← h]
+  have h2' : (loopFiles P n fs' []).2 = (loop P n fs'.flatten []).2 := by rw [← h']
+  rw [h2, h2']
+  exact C09_order_indep P fs.flatten fs'.flatten hperm n hn x
+
 /-- **Success criterion, literal wording, for providers that ask the resolver.** -/
 theorem C09_query_success_iff_order (W : Ref → List Wait) (fs0 : List (List CRef))
     (hnd : (idsOf fs0).Nodup) (n : Nat) (hn : pendingCount fs0 < n) :
